@@ -222,6 +222,23 @@ def enum_member_faults(members: dict):
     return faults
 
 
+def enum_dirname_retargets(members: dict):
+    """Second form of a dangling target: the relationship is voided to the name of the main part's
+    directory ("/ppt"), which is not a member of a zip and not a file of a directory-form package.
+    In a zip this is the retarget fault again, so it is only enumerated together with form=dir."""
+    ref = opc_ref.RefPackage(clean_members(members))
+    main = ref.main_part()
+    if main is None or main.count("/") < 2:
+        return []
+    dirname = "/" + main.split("/")[1]
+    out = []
+    for src in ["/"] + ref.reachable():
+        for r in ref.rels(src):
+            if r.mode != "External":
+                out.append({"k": "retarget", "src": src, "rid": r.id, "to": dirname, "cls": "dirname"})
+    return out
+
+
 def footprint(f: dict, members: dict):
     """(deleted member names, edit locations (member, key)) of a fault — used to drop pairs in which
     one fault removes the location of the other (such a pair is one of the two single faults again)."""
@@ -291,7 +308,7 @@ def _apply_one(m: dict, f: dict):
         root = etree.fromstring(m[name])
         for el in root:
             if isinstance(el.tag, str) and el.get("Id") == f["rid"] and el.get("TargetMode") != "External":
-                el.set("Target", NULL_TARGET)
+                el.set("Target", f.get("to") or NULL_TARGET)
         m[name] = _xml_bytes(root)
     elif k == "del-part":
         m.pop(f["part"][1:], None)
@@ -420,7 +437,7 @@ def apply_byte_fault(zbytes: bytes, bf):
     if bf["k"] == "trunc":
         return zbytes[: bf["at"]]
     if bf["k"] == "nonzip":
-        return nonzip_bytes(bf["v"])
+        return "emptydir" if bf["v"] == "emptydir" else nonzip_bytes(bf["v"])
     if bf["k"] == "nofile":
         return None
     raise ValueError(bf["k"])
@@ -451,6 +468,9 @@ def materialise(case, zbytes, members):
         p = os.path.join(fx.tmpdir(), "f%d.pptx" % _SEQ[0])
         if data is None:
             return p, (lambda: None), None
+        if data == "emptydir":
+            os.makedirs(p)
+            return p, (lambda: os.rmdir(p)), p
         with open(p, "wb") as f:
             f.write(data)
 
